@@ -1094,8 +1094,8 @@ func runC10(c *fw.Ctx) {
 	gens := []gen{
 		{"stack", c.Pick(300, 4000), c10stack},
 		{"queue", c.Pick(300, 4000), c10queue},
-		{"list", c.Pick(6000, 60000), c10listCase},
-		{"ring", c.Pick(3000, 30000), c10ringRandom},
+		{"list", c.Pick(6000, 400000), c10listCase},
+		{"ring", c.Pick(3000, 200000), c10ringRandom},
 		{"large", c.Pick(2, 12), c10large},
 	}
 	for _, g := range gens {
